@@ -63,12 +63,14 @@ func newSliceDecoder(dec Decoder, elemType *runtime.Type, size uintptr, structNa
 
 func (d *sliceDecoder) newSlice(src *sliceHeader) *sliceHeader {
 	slice := d.arrayPool.Get().(*sliceHeader)
+	verifTakeSliceHeader(slice)
 	if src.len > 0 {
 		// copy original elem
 		if slice.cap < src.cap {
 			data := newArray(d.elemType, src.cap)
 			verifTrackArray(data, src.cap)
 			slice = &sliceHeader{data: data, len: src.len, cap: src.cap}
+			verifTakeSliceHeader(slice)
 		} else {
 			slice.len = src.len
 		}
